@@ -82,9 +82,15 @@ func genExhaustive(tier string, emit func(string)) {
 	if tier == "thorough" {
 		lenA3 = 5
 	}
-	words(a3, lenA3, func(w []string) {
-		emit(header("red", 1000, 2, []int{7}) + " o:0.7.0 o:1.7.0 h:0.7.0 " + strings.Join(w, " "))
-	})
+	for _, be := range []string{"red", "hyr"} { // hyr: the tiered backend the server builds in production
+		l := lenA3
+		if be == "hyr" && l > 4 {
+			l = 4
+		}
+		words(a3, l, func(w []string) {
+			emit(header(be, 1000, 2, []int{7}) + " o:0.7.0 o:1.7.0 h:0.7.0 " + strings.Join(w, " "))
+		})
+	}
 	// A4: every path by which a connection ends: the client is registered on 0.7.0; direct close, adapter read-loop
 	// end, Disconnect command, heartbeat-timeout sweep, duplicate-login eviction, node shutdown, against a same-node
 	// and a cross-node reconnect and the old connection's heartbeat
@@ -383,7 +389,7 @@ func genWall(tier string, emit func(string)) {
 		// re-handshake on the old connection after the client moved and came back (same-node kick in between)
 		"o:0.7.0 h:0.7.0 o:1.7.0 w:110 b:0.7.0 w:110 b:0.7.0 w:110 h:1.7.0 b:1.7.0 w:110 b:1.7.0 w:110 b:1.7.0 w:110 h:1.7.0 w:110 e:0.7.0 w:110",
 	}
-	bes := []string{"mem", "red"}
+	bes := []string{"mem", "red", "hyl"}
 	if tier == "thorough" {
 		bes = []string{"mem", "red", "hyr", "hyl", "map", "byt"}
 	}
